@@ -9,7 +9,8 @@
 (*   6: 11,13,15     between native points, same length, another position                           *)
 (*   7: 1,3          partly BELOW the native range (edge value)                                     *)
 (*   0: no grid (the full native grid)                                                              *)
-EXTENDS KTableHistory
+(* (T, P) classes of the design run: on nodes; between nodes; T above / P below the table.          *)
+EXTENDS KTableHistory, Json
 MCWins == << [lo |-> 4,  hi |-> 8,  step |-> 2],
              [lo |-> 10, hi |-> 14, step |-> 2],
              [lo |-> 4,  hi |-> 12, step |-> 2],
@@ -17,8 +18,30 @@ MCWins == << [lo |-> 4,  hi |-> 8,  step |-> 2],
              [lo |-> 5,  hi |-> 9,  step |-> 2],
              [lo |-> 11, hi |-> 15, step |-> 2],
              [lo |-> 1,  hi |-> 3,  step |-> 2] >>
-\* Sound variants and mutants are checked in ONE run (TLC -continue).  The mutants are refuted on the
-\* sub-alphabet 0, 1, 2, 3, 5 already, and the latched mode without any memo: keeps the number of reported
-\* counterexamples small.
-MutantAlphabet == Sound \/ (win \in {0, 1, 2, 3, 5} /\ (ModeRead = "construct" => Key = "none"))
+MCTPs  == << [t |-> "node", p |-> "node"], [t |-> "between", p |-> "between"], [t |-> "above", p |-> "below"] >>
+\* Sound variants and mutants are checked in ONE run (TLC -continue).  The memo / mode mutants are refuted on the
+\* sub-alphabet 0, 1, 2, 3, 5 already under the default configuration, the latched mode without any memo, and the
+\* configuration mutants without a memo on windows 0 and 5: keeps the number of reported counterexamples small.
+\* The sound variants walk the whole window alphabet under the default configuration and windows 0, 1, 5 (full grid,
+\* a native run, between native points) under every other one.
+BaseCfg == interp = "linear" /\ route = "global" /\ extra = "none"
+MutantAlphabet ==
+    \/ Sound /\ (BaseCfg \/ win \in {0, 1, 5})
+    \/ /\ CfgRead = "both" /\ BaseCfg
+       /\ win \in {0, 1, 2, 3, 5} /\ (ModeRead = "construct" => Key = "none")
+    \/ /\ CfgMutant /\ win \in {0, 5} /\ extra = "none" /\ mode = "k"
+
+\* ---- export of the configuration alphabet (binding A of the configuration dimension): every class of
+\* (temperature position, pressure position) x scheme x route x extra key, with what the specification says about it
+Cls == {"node", "between", "below", "above"}
+EXTPs == << [t |-> "node", p |-> "node"],    [t |-> "node", p |-> "between"],    [t |-> "node", p |-> "below"],    [t |-> "node", p |-> "above"],
+            [t |-> "between", p |-> "node"], [t |-> "between", p |-> "between"], [t |-> "between", p |-> "below"], [t |-> "between", p |-> "above"],
+            [t |-> "below", p |-> "node"],   [t |-> "below", p |-> "between"],   [t |-> "below", p |-> "below"],   [t |-> "below", p |-> "above"],
+            [t |-> "above", p |-> "node"],   [t |-> "above", p |-> "between"],   [t |-> "above", p |-> "below"],   [t |-> "above", p |-> "above"] >>
+EXWins == << >>
+EmitCfg == /\ TLCGet("level") < 3
+           /\ (evald /\ mode = "k") =>
+                PrintT(<<"VEC", ToJson([t |-> TPs[tp].t, p |-> TPs[tp].p, interp |-> interp, route |-> route, extra |-> extra,
+                                        twin |-> TwinEqualsXsec, schemefree |-> SchemeFree(win, tp),
+                                        ng |-> NG])>>)
 =============================================================================
